@@ -241,9 +241,13 @@ Definition u8z (z : Z) : N := Z.to_N (z mod 256).
 (** [inArray(po, req.Pos)]: [bin == uint8(v)] *)
 Definition in_array (po : N) (pos : list Z) : bool := existsb (fun v => u8z v =? po) pos.
 
-(** [limitConn, limitKnown] from [req.Limit] (after the cap) *)
-Definition hive_limits (max_limit l : Z) : Z * Z :=
+(** [req.Limit] after the cap and the clamp of negative values to 0 *)
+Definition hive_clamp (max_limit l : Z) : Z :=
   let l := if (l >? max_limit)%Z then max_limit else l in
+  if (l <? 0)%Z then 0%Z else l.
+(** [limitConn, limitKnown] from the clamped limit *)
+Definition hive_limits (max_limit l : Z) : Z * Z :=
+  let l := hive_clamp max_limit l in
   if (l >? 2)%Z then let k := (Z.quot l 2) in ((l - k)%Z, k) else (1%Z, 1%Z).
 
 (** [randPeersLimit(peers, limit)]: [peers[:limit]] of a shuffle when [len(peers) > limit]
@@ -276,7 +280,13 @@ Definition hive_find_node (maxpo : N) (max_limit : Z) (requester : list N) (conn
   rc <- rand_limit mc lc ;;
   mk <- hive_match maxpo (fn_target req) (fn_pos req) (requester :: rc) known ;;
   rk <- rand_limit mk lk ;;
-  Val (Z.of_nat (length rc + length rk)).
+  (* never more than requested: [resp.Peers = resp.Peers[:req.Limit]] when longer *)
+  let all := rc ++ rk in
+  let lim := hive_clamp max_limit (fn_limit req) in
+  out <- (if (Z.of_nat (length all) >? lim)%Z
+          then (if (lim <? 0)%Z then Pan else slice_to all (Z.to_nat lim))
+          else Val all) ;;
+  Val (Z.of_nat (length out)).
 
 Definition res_outcome {A} (r : res A) : outcome :=
   match r with Val _ => Done 0 | Ret e => Done e | Pan => Panicked end.
